@@ -75,7 +75,7 @@ func c18Follow(fs fsutil.FS, reqs []string) Sx {
 		res, err := fsutil.FollowLinks(fs, reqs)
 		if err != nil {
 			if os.Getenv("C18_DEBUG") != "" { fmt.Fprintf(os.Stderr, "ERR: %+v\n", err) }
-			done <- L(N(1), S(errClass(err)))
+			done <- L(N(1), S(errClass18(err)))
 			return
 		}
 		out := make([]Sx, len(res))
@@ -92,7 +92,7 @@ func c18Follow(fs fsutil.FS, reqs []string) Sx {
 	}
 }
 
-func errClass(err error) string {
+func errClass18(err error) string {
 	switch {
 	case errors.Is(err, syscall.ENOTDIR):
 		return "ENOTDIR"
